@@ -770,8 +770,8 @@ func ExecStress(c CaseStress) *vkit.Result {
 
 var PartCtl = &vkit.Part[CaseCtl]{
 	Property: Property, Name: "controlled",
-	Rule: "rapid: {variant single|wide-modulo|wide-xxhash, shards 1/2/3/7/73, rwRatio 1/2/3/5/10, 1-3 keys incl. same-shard and same-value-different-type pairs} + 4-30 steps drawn by folding the reference model (acquire R/W incl. pre-cancelled contexts, release by a current holder, cancel of head / mid-queue waiters, holders, finished actors); every acquire on its own goroutine, quiescence (stop-the-world goroutine-state cut) after every step, observed {acquired, failed, parked} per actor compared with the weighted-FIFO model, an independent per-key holder count checks exclusion, idle keys must have no entry, final drain must leave 0 entries. Non-trivial: at least one acquire had to wait; distinct = distinct case JSON",
-	Quick:    3000, Thorough: 20000,
+	Rule:  "rapid: {variant single|wide-modulo|wide-xxhash, shards 1/2/3/7/73, rwRatio 1/2/3/5/10, 1-3 keys incl. same-shard and same-value-different-type pairs} + 4-30 steps drawn by folding the reference model (acquire R/W incl. pre-cancelled contexts, release by a current holder, cancel of head / mid-queue waiters, holders, finished actors); every acquire on its own goroutine, quiescence (stop-the-world goroutine-state cut) after every step, observed {acquired, failed, parked} per actor compared with the weighted-FIFO model, an independent per-key holder count checks exclusion, idle keys must have no entry, final drain must leave 0 entries. Non-trivial: at least one acquire had to wait; distinct = distinct case JSON",
+	Quick: 3000, Thorough: 20000,
 	Gen: GenCtl, Exec: ExecCtl,
 }
 
